@@ -129,9 +129,9 @@ fn chunk_progress<const L: usize>(count: usize, unk: bool) {
 	assert!(r.is_err(), "a count promising more data than is present was accepted");
 	core::mem::forget(r);
 }
-with_stubs!(le_32k, #[kani::unwind(6)] pub fn c09q_chunk_progress_unk_1000() { chunk_progress::<3>(1000, true) });
-with_stubs!(le_32k, #[kani::unwind(6)] pub fn c09q_chunk_progress_slice_max() { chunk_progress::<3>(u32::MAX as usize, false) });
-with_stubs!(le_48k, #[kani::unwind(8)] pub fn c09t_chunk_progress_unk_5bytes() { chunk_progress::<5>(1 << 20, true) });
+with_stubs!(le_32k, #[kani::unwind(4)] pub fn c09q_chunk_progress_unk_1000() { chunk_progress::<3>(1000, true) });
+with_stubs!(le_32k, #[kani::unwind(4)] pub fn c09q_chunk_progress_slice_max() { chunk_progress::<3>(u32::MAX as usize, false) });
+with_stubs!(le_48k, #[kani::unwind(6)] pub fn c09t_chunk_progress_unk_5bytes() { chunk_progress::<5>(1 << 20, true) });
 
 // ---- the recordable finding: element types with a zero-length encoding but non-zero size
 pub struct Pad(pub [u64; 1024]); // 8 KiB
